@@ -103,6 +103,8 @@ def native_checks(rng, tier):
         api.RailsConfig.from_path = staticmethod(fake_from_path)
         api.LLMRails = FakeRails
         try:
+            corpus = corpus + [base + "2/x", base + "2", base + "/../configs2/x", base, base + "/a", os.path.join(root, "configs2", "x"),
+                               "/" + base.lstrip("/") + "2/x"]
             ids_lists = [[c] for c in corpus] + [["a", c] for c in corpus] + [[c, "a"] for c in corpus[:12]]
             if tier == "thorough":
                 alphabet = ["a", ".", "/", "\\", "..", "%", "2e", " "]
@@ -137,3 +139,98 @@ def native_checks(rng, tier):
     yield dict(function="_get_rails", evaluations=n, distinct=len(seen), failures=len(failing), failing=failing,
                bound="config id lists of length 1-2 over a %d-string hostile corpus (+3000 random strings over a separator/dot alphabet in "
                      "thorough tier) x 3 spellings of the root; from_path / LLMRails replaced by recorders" % len(corpus))
+
+
+def _thread_checks(rng, tier):
+    """chat_completion with a thread id: the messages used for a turn are exactly the stored thread followed by the new
+    messages, and what is stored afterwards is that list plus the reply; other threads are untouched"""
+    import asyncio
+    import json
+    from nemoguardrails.server import api
+    failing = []
+    n = 0
+    seen = set()
+
+    class Store:
+        def __init__(self):
+            self.d = {}
+
+        async def get(self, k):
+            return self.d.get(k)
+
+        async def set(self, k, v):
+            self.d[k] = v
+
+    class Rails:
+        class config:
+            streaming_supported = False
+        main_llm_supports_streaming = False
+
+        def __init__(self, replies):
+            self.replies = list(replies)
+            self.calls = []
+
+        async def generate_async(self, messages=None, options=None, state=None, **kw):
+            self.calls.append(json.loads(json.dumps(messages)))
+            return {"role": "assistant", "content": self.replies.pop(0)}
+
+    class Req:
+        headers = {}
+
+    saved = (api.datastore, dict(api.llm_rails_instances), api._get_rails)
+    try:
+        reply_sets = [["r1", "r2", "r3", "r4", "r5", "r6"], ["", "r2", "", "r4", "r5", ""], ["r:1", "", "x", "", "", "y"]]
+        tids = ["thread-aaaaaaaaaaaaaaaa", "thread-bbbbbbbbbbbbbbbb"]
+        orders = [[0, 0, 1, 0, 1, 1], [0, 1, 0, 1, 0, 1], [1, 1, 1, 0, 0, 0]]
+        for replies in reply_sets:
+            for order in orders:
+                for with_ctx in (False, True):
+                    store = Store()
+                    rails = Rails(replies)
+                    api.datastore = store
+                    api._get_rails = lambda ids, _r=rails: _r
+                    model = {}
+                    for turn, ti in enumerate(order):
+                        tid = tids[ti]
+                        new = [{"role": "user", "content": "u%d" % turn}]
+                        body = api.RequestBody(config_id="c", thread_id=tid, messages=[dict(m) for m in new],
+                                               context={"k": turn} if with_ctx else None)
+                        n += 1
+                        seen.add((tuple(replies), tuple(order), with_ctx, turn))
+                        before = dict(store.d)
+                        try:
+                            res = asyncio.run(api.chat_completion(body, Req()))
+                        except Exception as ex:
+                            res = "raised %s" % type(ex).__name__
+                        key = "thread-" + tid
+                        ctx = [{"role": "context", "content": {"k": turn}}] if with_ctx else []
+                        expected_used = model.get(key, []) + ctx + new
+                        reply = {"role": "assistant", "content": replies[turn]}
+                        bad = None
+                        if not rails.calls or rails.calls[-1] != expected_used:
+                            bad = "messages used for the turn %r != stored thread + new messages %r" % (rails.calls[-1:] , expected_used)
+                        model[key] = expected_used + [reply]
+                        got = {k: json.loads(v) for k, v in store.d.items()}
+                        if bad is None and got != model:
+                            bad = "stored threads %r != expected %r" % (got, model)
+                        if bad and len(failing) < 5:
+                            failing.append(dict(kind="post", function="chat_completion", file=API, property_id="C20",
+                                                clause="thread store == previous thread ++ new messages ++ [reply]; other threads unchanged",
+                                                inputs=repr(dict(replies=replies, thread_order=order, with_context=with_ctx, turn=turn)),
+                                                outcome=bad[:400]))
+                            break
+    finally:
+        api.datastore, _, api._get_rails = saved
+    yield dict(function="chat_completion", evaluations=n, distinct=len(seen), failures=len(failing), failing=failing,
+               bound="6-turn request sequences over 2 thread ids (3 interleavings) x 3 reply scripts (incl. empty replies) x with/without context; "
+                     "datastore, rails instance and request replaced by recorders; non-streaming")
+
+
+_native_get_rails = native_checks
+
+
+def native_checks(rng, tier):
+    for rec in _native_get_rails(rng, tier):
+        yield rec
+    for rec in _thread_checks(rng, tier):
+        yield rec
